@@ -34,6 +34,13 @@ ASSUMPTIONS = [
     "integer array at any axis (a 0-d result — every axis indexed by an integer — is a numpy scalar in numpy and in the model; it "
     "arises when a sensitivity has fewer axes than the state the spec was drawn for); tuples with two or more integer arrays are "
     "not generated",
+    "rank-0 ndarrays (shape (), mutable) are generated as states and as arguments in all streams and are heap arrays in the model; "
+    "numpy scalars (results of ufuncs on rank-0 arrays and of indexing every axis with an integer) and Python numbers are the "
+    "immutable ones",
+    "integer index arrays are handed to pymoto as ndarray objects or as Python lists (spec key `lst`), alone or inside tuples at any "
+    "position; the model has one representation for both (numpy treats them alike)",
+    "nested basic slices include chains (depth 2-3, 1-D slice objects and per-axis tuples) whose inner start / stop overshoot the "
+    "outer slice's extent, with positive and negative steps and empty results",
     "dtype variety (float32 / float64 / complex64 next to int64 / complex128, Python float) is an ORACLE-LEVEL stream on plain "
     "signals: the real code is compared with a pure-numpy accumulation spec (deepcopy at the first add, numpy's own += and its "
     "casting errors afterwards, [...] = 0 for kept allocation) for values, dtype and error class; the Lean model itself carries "
@@ -108,10 +115,12 @@ def py_spec(sp):
         return slice(*sp["sl"])
     if k == "tuple":
         return tuple(slice(*s) for s in sp["sl"])
+    lst = sp.get("lst")          # the index array is handed over as a Python LIST (numpy treats it like an ndarray)
     if k == "mixed":
-        return tuple(slice(*it) if isinstance(it, list) else np.array(it["a"], dtype=np.int64) if isinstance(it, dict) else int(it)
+        return tuple(slice(*it) if isinstance(it, list) else
+                     (list(it["a"]) if lst else np.array(it["a"], dtype=np.int64)) if isinstance(it, dict) else int(it)
                      for it in sp["sl"])
-    return np.array(sp["sl"], dtype=np.int64)
+    return list(sp["sl"]) if lst else np.array(sp["sl"], dtype=np.int64)
 
 
 def is_copy_spec(sp):
@@ -139,6 +148,8 @@ class Spec:
         self.state, self.sens = [], []
 
     def idx(self, chain, shape):
+        if len(shape) == 0:
+            raise Undefined("index into a rank-0 array")
         a = np.arange(int(np.prod(shape)), dtype=np.int64).reshape(shape)
         for sp in chain:
             try:
@@ -182,8 +193,8 @@ class Spec:
 
     def _ensure_sens(self, i):
         if self.sens[i] is None:
-            if not isinstance(self.state[i], np.ndarray):
-                raise Undefined("no array state to size the sensitivity")
+            if not isinstance(self.state[i], np.ndarray) or self.state[i].ndim == 0:
+                raise Undefined("no array state (rank >= 1) to size the sensitivity")
             self.sens[i] = np.zeros_like(self.state[i])
         if not isinstance(self.sens[i], np.ndarray):
             raise Undefined("slice of scalar sensitivity")
@@ -207,7 +218,9 @@ class Spec:
             if cur is None:
                 self.sens[i] = _cp(v)
             elif isinstance(cur, np.ndarray):
-                self.sens[i] = cur + self.bval(v, cur.shape, cur.dtype == np.complex128)
+                new = cur.copy()                 # (an expression `cur + v` would turn a rank-0 array into a numpy scalar)
+                new += self.bval(v, cur.shape, cur.dtype == np.complex128)
+                self.sens[i] = new
             else:
                 self.sens[i] = cur + (_cp(v))
             return
@@ -223,7 +236,12 @@ class Spec:
             return
         if not chain:
             k = keep_default if ka is None else ka
-            self.sens[i] = (cur * 0) if k else None
+            if k and isinstance(cur, np.ndarray):
+                z = cur.copy()
+                z[...] = 0
+                self.sens[i] = z
+            else:
+                self.sens[i] = (cur * 0) if k else None
             return
         if not isinstance(cur, np.ndarray):
             raise Undefined("slice of scalar sensitivity")
@@ -444,7 +462,8 @@ class Impl:
                     i, f = a["held"]
                     tgt = sp.state if f == "state" else sp.sens
                     if isinstance(tgt[i], np.ndarray):
-                        tgt[i] = tgt[i] + op["k"]
+                        tgt[i] = tgt[i].copy()
+                        tgt[i] += op["k"]
                 elif id(obj) in self.transferred:
                     raise Undefined("caller mutated an array it had assigned to a signal")
             else:
@@ -504,7 +523,9 @@ def run_case(req, oracle):
 # ------------------------------------------------------------------------------------------------
 # generators
 # ------------------------------------------------------------------------------------------------
-def rand_shape(rng, big):
+def rand_shape(rng, big, rank0=0.0):
+    if rng.random() < rank0:
+        return []                  # a rank-0 ndarray: MUTABLE, unlike numpy scalars and Python numbers
     nd = rng.choice([1, 1, 1, 2, 2, 3])
     if nd == 1:
         return [rng.randint(1, 8 if big else 6)]
@@ -569,6 +590,8 @@ def rand_mixed(rng, shape, malformed):
             items.append(rand_slice(rng, d, malformed and rng.random() < 0.05))
     if malformed and rng.random() < 0.08:
         items = items + [rand_slice(rng, 2)] * (nd + 1 - n)        # too many indices
+    if with_arr and rng.random() < 0.4:
+        return {"k": "mixed", "sl": items, "lst": True}
     return {"k": "mixed", "sl": items}
 
 
@@ -595,7 +618,56 @@ def rand_spec(rng, shape, malformed=False):
             idx.append(rng.choice(idx))                       # repeat
         elif m < 0.5:
             idx[rng.randrange(len(idx))] = rng.choice([d0, d0 + 1, -d0 - 1])    # out of range
+    if rng.random() < 0.4:
+        return {"k": "int", "sl": idx, "lst": True}
     return {"k": "int", "sl": idx}
+
+
+def overshoot_slice(rng, L, first):
+    """a basic slice on an axis of length L; `first`: strictly inside (entries remain beyond its stop), otherwise the
+    start / stop run past the end of the axis"""
+    if first:
+        if L < 2:
+            return [None, None, None]
+        if rng.random() < 0.75:
+            a = rng.randint(0, max(0, L - 2))
+            b = rng.randint(a + 1, max(a + 1, L - 1))
+            return [a if a or rng.random() < 0.5 else None, b, rng.choice([None, 1, 1, 2])]
+        b = rng.randint(0, L - 2)                           # negative step, stops before the beginning
+        return [rng.randint(b + 1, L - 1), b, rng.choice([-1, -1, -2])]
+    r = rng.random()
+    if r < 0.7:
+        return [rng.choice([None, 0, 1, min(2, L), L, L + 1, L + 3]), rng.choice([L, L + 1, L + 2, L + 4, 2 * L + 3]),
+                rng.choice([None, 1, 1, 2])]
+    if r < 0.85:
+        return [rng.choice([L, L + 2, 2 * L + 1]), rng.choice([None, 0]), rng.choice([-1, -2])]
+    return [rng.choice([None, 0, 1]), rng.choice([None, -1, L - 1 if L > 1 else None]), rng.choice([None, 1])]
+
+
+def overshoot_chain(rng, i, shape, decls, slice_shape):
+    """appends a chain s[outer][inner]([inner2]) of basic slices (1-D: `slice` objects; n-D: per-axis tuples) to decls;
+    returns the indices of the nested members"""
+    out = []
+    cur = list(shape)
+    parent = {"b": i}
+    depth = rng.choice([2, 2, 3])
+    for lvl in range(depth):
+        if len(cur) == 1 and rng.random() < 0.8:
+            sp = {"k": "basic", "sl": overshoot_slice(rng, cur[0], lvl == 0)}
+        else:
+            nax = rng.randint(1, len(cur))
+            sp = {"k": "tuple", "sl": [overshoot_slice(rng, cur[a], lvl == 0) for a in range(nax)]}
+        shp = spec_shape(cur, sp)
+        if shp is None:
+            break
+        decls.append({"p": parent, **sp})
+        slice_shape.append(shp)
+        j = len(decls) - 1
+        parent = {"s": j}
+        if lvl > 0:
+            out.append(j)
+        cur = shp
+    return out
 
 
 def spec_shape(shape, sp):
@@ -622,7 +694,7 @@ def gen_case(ctx, stream, maxops):
         elif r < 0.16:
             st, shape = rand_sc(rng, cplx), None
         else:
-            shape = rand_shape(rng, not ctx.quick)
+            shape = rand_shape(rng, not ctx.quick, 0.1)
             st = rand_new(rng, shape, cplx)
             if rng.random() < 0.2:
                 se = rand_new(rng, shape, cplx)
@@ -633,9 +705,12 @@ def gen_case(ctx, stream, maxops):
     slice_shape = []
     for i in range(nsig):
         shape = shapes[i]
-        if shape is None:
+        if shape is None or shape == []:
             if malformed or rng.random() < 0.3:
                 decls.append({"p": {"b": i}, **rand_spec(rng, [3], malformed)})
+                slice_shape.append(None)
+            if shape == [] and rng.random() < 0.5:
+                decls.append({"p": {"b": i}, "k": "tuple", "sl": []})       # `s[()]` of a rank-0 array: a numpy scalar
                 slice_shape.append(None)
             continue
         mine = []
@@ -658,11 +733,19 @@ def gen_case(ctx, stream, maxops):
             decls.append(d)
             slice_shape.append(shp)
             mine.append(len(decls) - 1)
+    # nested basic slices whose inner start / stop overshoot the outer slice's extent (numpy clips at EVERY level)
+    hot = []
+    for i in range(nsig):
+        shape = shapes[i]
+        if not shape or rng.random() < 0.4:
+            continue
+        hot += overshoot_chain(rng, i, shape, decls, slice_shape)
     im = Impl(decls, oracle=owned)
     obs = []
     for op in ops:
         obs.append(im.observe(im.apply(op)))
-    refs = [{"b": i} for i in range(nsig)] + [{"s": j} for j in range(len(decls))] * 2   # slices are used more often
+    refs = ([{"b": i} for i in range(nsig)] + [{"s": j} for j in range(len(decls))] * 2   # slices are used more often
+            + [{"s": j} for j in hot] * 3)
     free_exts = lambda: [k for k, e in enumerate(im.exts) if id(e) not in im.transferred]  # noqa
 
     def target_info(ref, fld):
@@ -693,9 +776,11 @@ def gen_case(ctx, stream, maxops):
             else:
                 return None
         if shape is None:
-            return rand_sc(rng, c) if r < 0.8 else rand_new(rng, rand_shape(rng, False), c)
-        if r < 0.18:
+            return rand_sc(rng, c) if r < 0.6 else rand_new(rng, rand_shape(rng, False, 0.5), c)
+        if r < 0.12:
             return rand_sc(rng, c)
+        if r < 0.18 and not plain_set:
+            return rand_new(rng, [], c)          # rank-0 array: broadcasts like a scalar but is a mutable object
         if r < 0.30 and not plain_set:
             # broadcastable
             bs = [1 if rng.random() < 0.5 else d for d in shape]
@@ -833,6 +918,35 @@ def fixed_cases():
                           {"op": "add", "sig": s(5), "a": _new([3, 4], list(range(12)))},
                           {"op": "set_sens", "sig": s(3), "a": _new([2, 3], [9, 9, 9, 8, 8, 8])},
                           {"op": "reset", "sig": s(0), "ka": None}, {"op": "reset", "sig": s(4), "ka": None}]}))
+    # nested basic slices whose inner stop / start overshoot the outer extent: x[2:5][1:4] is entries 3, 4; x[3:6][5:9] is empty
+    x10 = {"op": "new_signal", "st": _new([10], list(range(10))), "se": None}
+    cases.append(("owned", {"slices": [{"p": b0, "k": "basic", "sl": [2, 5, None]}, {"p": s(0), "k": "basic", "sl": [1, 4, None]},
+                                      {"p": b0, "k": "basic", "sl": [3, 6, None]}, {"p": s(2), "k": "basic", "sl": [5, 9, None]},
+                                      {"p": b0, "k": "basic", "sl": [1, 8, 2]}, {"p": s(4), "k": "basic", "sl": [1, 9, 2]},
+                                      {"p": s(1), "k": "basic", "sl": [None, 7, None]}],
+                  "ops": [x10, {"op": "add", "sig": s(1), "a": {"sc": [False, 1, 0]}}, {"op": "add", "sig": s(3), "a": {"sc": [False, 5, 0]}},
+                          {"op": "add", "sig": s(5), "a": _new([2], [10, 20])}, {"op": "set_state", "sig": s(1), "a": {"sc": [False, -1, 0]}},
+                          {"op": "set_state", "sig": s(6), "a": _new([2], [7, 8])}, {"op": "set_sens", "sig": s(5), "a": {"sc": [False, 3, 0]}},
+                          {"op": "add", "sig": b0, "a": {"sc": [False, 100, 0]}}, {"op": "reset", "sig": s(1), "ka": None},
+                          {"op": "reset", "sig": s(5), "ka": None}, {"op": "reset", "sig": s(3), "ka": None}]}))
+    # index arrays handed over as Python lists: x[[1, 3]], x[[0, 2], :], x[:, [2, 0]]
+    cases.append(("owned", {"slices": [{"p": b0, "k": "int", "sl": [1, 3], "lst": True},
+                                      {"p": {"b": 1}, "k": "mixed", "sl": [{"a": [0, 2]}, [None, None, None]], "lst": True},
+                                      {"p": {"b": 1}, "k": "mixed", "sl": [[None, None, None], {"a": [1, 0]}], "lst": True},
+                                      {"p": {"b": 1}, "k": "mixed", "sl": [{"a": [2, 0]}, [None, None, None]]}],
+                  "ops": [x10, {"op": "new_signal", "st": _new([3, 2], [1, 2, 3, 4, 5, 6]), "se": None},
+                          {"op": "add", "sig": s(0), "a": _new([2], [5, 6])}, {"op": "add", "sig": s(1), "a": _new([2, 2], [1, 2, 3, 4])},
+                          {"op": "add", "sig": s(2), "a": {"sc": [False, 10, 0]}}, {"op": "add", "sig": s(3), "a": _new([2], [7, 9])},
+                          {"op": "set_state", "sig": s(0), "a": {"sc": [False, 0, 0]}}, {"op": "reset", "sig": s(1), "ka": None}]}))
+    # rank-0 ndarrays are mutable objects: first add must copy; caller mutation, same object to two signals, keep-alloc reset
+    cases.append(("owned", {"slices": [{"p": b0, "k": "tuple", "sl": []}],
+                  "ops": [{"op": "new_signal", "st": _new([], [3]), "se": None}, {"op": "new_signal", "st": None, "se": None},
+                          {"op": "add", "sig": b0, "a": _new([], [2])}, {"op": "add", "sig": {"b": 1}, "a": {"ext": 1}},
+                          {"op": "mutate", "a": {"ext": 1}, "k": 5}, {"op": "add", "sig": b0, "a": {"ext": 1}},
+                          {"op": "add", "sig": {"b": 1}, "a": _new([], [1], [1])}, {"op": "reset", "sig": b0, "ka": True},
+                          {"op": "add", "sig": b0, "a": {"sc": [False, 4, 0]}}, {"op": "reset", "sig": {"b": 1}, "ka": None},
+                          {"op": "add", "sig": {"b": 1}, "a": {"sc": [False, 4, 0]}}, {"op": "add", "sig": {"b": 1}, "a": {"ext": 0}},
+                          {"op": "add", "sig": s(0), "a": {"sc": [False, 1, 0]}}]}))
     return [(st, {"m": "c18.run", **c}) for st, c in cases]
 
 
@@ -1099,7 +1213,7 @@ def run_dtype_log(log):
 def gen_dtype_log(ctx):
     rng = ctx.rng
     nsig = rng.randint(1, 2)
-    shape = rand_shape(rng, False)
+    shape = rand_shape(rng, False, 0.2)
     log = [["new", _dt_value(rng, shape), _dt_value(rng, shape) if rng.random() < 0.2 else None] for _ in range(nsig)]
     for _ in range(rng.randint(3, 10 if ctx.quick else 16)):
         i = rng.randrange(nsig)
